@@ -74,7 +74,9 @@ def select_one_or_select_many_or_infer(quantifier: Union[Type[An], Type[The], Ty
     if isinstance(entity_, (Entity, SetOf)):
         q = quantifier(entity_)
     elif isinstance(entity_, ResultQuantifier) and not properties:
-        q = entity_
+        # what is described is quantified already (a predicate-form term with field constraints is an `an` of its own): it
+        # is taken as it is when it is quantified as asked for, otherwise its description is quantified as asked for.
+        q = entity_ if isinstance(entity_, quantifier) else quantifier(entity_._child_)
     elif isinstance(entity_, CanBehaveLikeAVariable):
         q = quantifier(entity(entity_, *properties))
     elif isinstance(entity_, (list, tuple)):
